@@ -172,6 +172,44 @@ def lookupProofH (st : State) (H : HashFn) (q : Name) (t : Nat) : Option Rcode :
 
 def lookupProof (st : State) (q : Name) (t : Nat) : Option Rcode := lookupProofH st (fun _ => none) q t
 
+/-! ### how long a synthesised denial may be relied on (`denialProofResponse`'s `expires`) -/
+
+/-- the earliest deadline among the zone's SOA entry and the entries the
+evaluator's proof uses (`idxs` index into the list the evaluator was given). -/
+def usedExpiry (soa : Int) (exps : List Int) (idxs : List Nat) : Int :=
+  minList soa (idxs.filterMap fun k => exps[k]?)
+
+/-- `evalZone` with the deadline of the answer it synthesises. -/
+def evalZoneExpiry (now : Int) (H : HashFn) (z : ZoneState) (q : Name) (t : Nat) : Option Int :=
+  let liveE := z.entries.filter fun e => now < e.expires
+  let viaNsec := if liveE.isEmpty then none else
+    match evaluateAggressiveNSEC q t 1 z.zone (liveE.map (·.nsec)) with
+    | .ok (_, p) => some (usedExpiry z.soaExpires (liveE.map (·.expires)) p)
+    | .error _ => none
+  match viaNsec with
+  | some e => some e
+  | none =>
+    let live3 := z.entries3.filter fun e => now < e.expires
+    if live3.isEmpty then none else
+    match evaluateAggressiveNSEC3 H q t 1 z.zone (live3.map (·.rr)) with
+    | .ok (_, p) => some (usedExpiry z.soaExpires (live3.map (·.expires)) p)
+    | .error _ => none
+
+/-- the deadline `lookupDenialProofWithExpiry` hands back next to the answer:
+what `Store.GetWithContext` (the resolver-private route) and the client path
+bind the request tree to. -/
+def lookupProofExpiry (st : State) (H : HashFn) (q : Name) (t : Nat) : Option Int :=
+  let cand := (st.zones.filter fun z => nameInZone q z.zone)
+  let rec go : List ZoneState → Option Int
+    | [] => none
+    | z :: rest =>
+      if st.now < z.soaExpires then
+        match evalZoneExpiry st.now H z q t with
+        | some e => some e
+        | none => go rest
+      else go rest
+  go (cand.mergeSort fun a b => a.zone.length ≥ b.zone.length)
+
 /-- what a lookup retires (`pruneZoneLocked`): a candidate zone whose SOA
 entry has expired is dropped whole (its still-live RRsets too); otherwise its
 expired RRsets are dropped; candidates after the one that answered are not
